@@ -20,7 +20,7 @@ CHECKS = {
    text="d2r_exp, d2r_expinv, d2l_exp, d2l_expinv, d2r_rminus, d2r_rminus_squarednorm are validated against directional derivatives of Phi1(-ad a) computed by certified series in the documented stacked layout (tolerance 1e-5 of the largest entry)."),
  "C12": dict(design="5/C12", technique="TLC model checking of a refinement (implementation-shaped spline model vs curve algebra) + replay of TLC behaviours into the real Spline with state comparison through a probe hook + trace validation",
    text="spec/SplineModel.tla models the five per-segment vectors and find_idx/operator()/concat_local/concat_global/crop as coded next to the denotational curve algebra of the property; TLC checks the refinement (value, velocity, acceleration at every grid time incl. knots and out of range, t_max) for every history in scope, and rejects the upstream crop arithmetic kept as a spec mutant. TLC-simulated behaviours are replayed on real Spline<K,double> objects and spec/TraceSpline.tla compares the logged representation (SplineProbe hook) with the model state after every action; random programs on R^2/SO3/SE2/SE3, K=1..5 (segments, ConstantVelocity, FixedCubic, +=, concat_global, crops on knots / in later segments / beyond the ends) are validated against the abstract curve in matrix space.",
-   note="Design model: G = R, K <= 3, bounded piece library and history length (evidence lists constants and TLC state counts). Group-valued programs are samples. Crop boundaries on a value jump are skipped (undetermined by the property). arclength is recorded but not yet judged. Trusted: TLC, JVM, BigRat/RFun overrides, the guarded SplineProbe friend declaration, recording code."),
+   note="Design model: G = R, K <= 3, bounded piece library and history length (evidence lists constants and TLC state counts). Group-valued programs are samples. Crop boundaries on a value jump are skipped (undetermined by the property). arclength is judged by an exact sign analysis of the stated bound with a sqrt enclosure. Trusted: TLC, JVM, BigRat/RFun overrides, the guarded SplineProbe friend declaration, recording code."),
  "C06": dict(design="5/C06", technique="TLC trace validation: bundle results against the tuple / block-diagonal / stacked-Hessian arrangement of the same operation on part<i>() defined in the spec; vectors and scalars against the additive group exactly",
    text="For 8 Bundle compositions (order, repetition, nesting, commutative-only, with Galilei / SE_K_3 members) every operation, Jacobian and Hessian of the bundle is recorded next to the same operation on each part<i>() and TLC checks the tuple / block-diagonal / stacked layout (off-block entries exactly zero); fixed-size vectors, dynamic vectors of size 0..6 and scalars are checked to be the additive group exactly (sum to one rounding, identity maps, I and 0 matrices, dof = size). The spec's own direct-product semantics of Bundles (spec/Groups.tla) is additionally exercised by C01-C05 on the same Bundle types.",
    note="Finite list of Bundle instantiations (compile-time family); operands are stratified samples. Trusted: TLC, JVM, BigRat override, recording code."),
